@@ -83,6 +83,15 @@ static void gen_c03(const std::string& tier, std::vector<Case>& cases) {
                     if (sh.nin == 1 && sel == (sh.pos + 1) % sh.nin && sel == sh.pos) { if (sel != -1) { /* same as sel=pos */ } }
                     cases.push_back(c);
                 }
+                // the other inputs of the transaction carry witnesses of their own (mixed legacy/segwit transaction): neither the
+                // legacy nor the BIP143 digest commits to witnesses, so the spend stays valid and must be set up identically
+                if (sh.nin > 1) {
+                    Case c; c.fund = S.fund; c.tx = S.tx; c.select = -1; c.label = base + " other inputs carry witnesses"; c.klass = "valid-mixed-witness";
+                    for (int i = 0; i < sh.nin; i++) if (i != sh.pos) c.tx.vin[i].witness = {bytes{0x30, 0x01}, bytes(33, 0x02)};
+                    cases.push_back(c);
+                    Case c2 = c; c2.select = sh.pos; c2.label += " select=" + std::to_string(sh.pos); cases.push_back(c2);
+                    Case c3 = c; c3.tx.vout[0].value ^= 1; c3.label = base + " other inputs carry witnesses, output amount altered after signing"; c3.klass = "mixed-witness-output-altered"; cases.push_back(c3);
+                }
                 // deviations
                 bool all_bits = th && first_shape && pathlen <= 1 && !annex;
                 std::vector<std::pair<std::string, Tx>> devs; deviations(S, all_bits, devs);
